@@ -363,7 +363,9 @@ def _pipeline(world, phase, probe):
     if phase == "backward":
         probe.phase = "backward"
         torch.manual_seed(778)
-        res["g1"] = torch.autograd.grad(loss, world.leaves, allow_unused=True)
+        # retain_graph: the derived (non-leaf) tensors held by the user's object are built once per world; their
+        # graph must survive this backward pass for the re-run on the same objects
+        res["g1"] = torch.autograd.grad(loss, world.leaves, allow_unused=True, retain_graph=True)
         return res
     probe.phase = "backward_cg"
     torch.manual_seed(778)
@@ -375,7 +377,7 @@ def _pipeline(world, phase, probe):
     l2 = F.loss2_of(g1)
     if l2 is not None:
         torch.manual_seed(779)
-        res["g2"] = torch.autograd.grad(l2, world.leaves, allow_unused=True)
+        res["g2"] = torch.autograd.grad(l2, world.leaves, allow_unused=True, retain_graph=True)
     return res
 
 
@@ -591,8 +593,18 @@ class PWorld:
         f1 = [self._fresh(t) for t in self.orig]
         f2 = [f1[0]] + [self._fresh(t) for t in self.orig[1:]]
         z = self._fresh(self.orig[0])
-        alias = [z, z] + [self._fresh(t) for t in self.orig[2:]] if self.m >= 2 and \
-            self.orig[0].shape == self.orig[1].shape else [self._fresh(t) for t in self.orig]
+        if kind.startswith("lo_jac:"):
+            # slots 0 and 1 are the differentiation point and an explicit argument of the function: installing ONE
+            # tensor for both changes the mathematical function (autograd returns the total derivative), which no
+            # caller of the library does and the property does not speak about; alias two object parameters instead
+            if self.m >= 4 and self.orig[2].shape == self.orig[3].shape:
+                z = self._fresh(self.orig[2])
+                alias = [self._fresh(t) for t in self.orig[:2]] + [z, z] + [self._fresh(t) for t in self.orig[4:]]
+            else:
+                alias = [self._fresh(t) for t in self.orig]
+        else:
+            alias = [z, z] + [self._fresh(t) for t in self.orig[2:]] if self.m >= 2 and \
+                self.orig[0].shape == self.orig[1].shape else [self._fresh(t) for t in self.orig]
         mix = [self.orig[0]] + f1[1:]
         self.sets.update({"f1": f1, "f2": f2, "alias": alias, "mix": mix})
         # reference model
